@@ -30,27 +30,43 @@ fn state(path: &Path, old: &[u8], newtok: &dyn Fn(&[u8]) -> Option<String>) -> S
     }
 }
 
-fn only_key(t: &toml::value::Table, key: &str) -> bool { t.iter().all(|(k, v)| k == key || matches!(v, toml::Value::Array(a) if a.is_empty())) }
+/// every top-level key of a TOML document other than `keys` is absent or an empty array / table
+fn only_keys(t: &toml::value::Table, keys: &[&str]) -> bool { t.iter().all(|(k, v)| keys.contains(&k.as_str()) || matches!(v, toml::Value::Array(a) if a.is_empty()) || matches!(v, toml::Value::Table(x) if x.is_empty())) }
+fn doc(b: &[u8]) -> Option<toml::value::Table> { toml::from_str::<toml::Value>(std::str::from_utf8(b).ok()?).ok()?.as_table().cloned() }
+/// n = the normal payload, e = the empty / minimal document, x = the other-shape payload (see tbp.rs)
 fn is_new_plan(b: &[u8]) -> Option<String> {
-    let v: toml::Value = toml::from_str(std::str::from_utf8(b).ok()?).ok()?;
-    let t = v.as_table()?;
-    let p = t.get("provides")?.as_array()?;
-    (p.len() == 1 && p[0].as_table()?.len() == 1 && p[0].get("name")?.as_str()? == "tbp-plan" && only_key(t, "provides")).then(|| "n".to_string())
+    let t = doc(b)?;
+    if only_keys(&t, &[]) { return Some("e".into()); }
+    if let Some(p) = t.get("provides").and_then(|p| p.as_array()) {
+        if p.len() == 1 && p[0].as_table()?.len() == 1 && p[0].get("name")?.as_str()? == "tbp-plan" && only_keys(&t, &["provides"]) { return Some("n".into()); }
+    }
+    let rq = t.get("requires")?.as_array()?;
+    let or = t.get("or")?.as_array()?;
+    (rq.len() == 1 && rq[0].get("name")?.as_str()? == "tbp-req" && rq[0].get("metadata")?.get("v")?.as_integer()? == 1 && or.len() == 1
+        && or[0].get("provides")?.as_array()?.first()?.get("name")?.as_str()? == "tbp-alt" && only_keys(&t, &["requires", "or"])).then(|| "x".to_string())
 }
 fn is_new_launch(b: &[u8]) -> Option<String> {
-    let v: toml::Value = toml::from_str(std::str::from_utf8(b).ok()?).ok()?;
-    let t = v.as_table()?;
-    let p = t.get("processes")?.as_array()?;
-    let cmd = p.first()?.get("command")?.as_array()?;
-    (p.len() == 1 && p[0].get("type")?.as_str()? == "tbpweb" && cmd.len() == 1 && cmd[0].as_str()? == "run" && only_key(t, "processes")).then(|| "n".to_string())
+    let t = doc(b)?;
+    if only_keys(&t, &[]) { return Some("e".into()); }
+    if let Some(p) = t.get("processes").and_then(|p| p.as_array()) {
+        let cmd = p.first()?.get("command")?.as_array()?;
+        if p.len() == 1 && p[0].get("type")?.as_str()? == "tbpweb" && cmd.len() == 1 && cmd[0].as_str()? == "run" && only_keys(&t, &["processes"]) { return Some("n".into()); }
+    }
+    let l = t.get("labels")?.as_array()?;
+    let sl = t.get("slices")?.as_array()?;
+    (l.len() == 1 && l[0].get("key")?.as_str()? == "tbp" && l[0].get("value")?.as_str()? == "x" && sl.len() == 1 && sl[0].get("paths")?.as_array()?.len() == 1 && only_keys(&t, &["labels", "slices"])).then(|| "x".to_string())
 }
 fn is_new_store(b: &[u8]) -> Option<String> {
-    let v: toml::Value = toml::from_str(std::str::from_utf8(b).ok()?).ok()?;
-    let t = v.as_table()?;
+    let t = doc(b)?;
+    if only_keys(&t, &[]) { return Some("e".into()); }
+    if t.len() != 1 { return None; }
     let m = t.get("metadata")?.as_table()?;
-    (t.len() == 1 && m.len() == 1 && m.get("tbp")?.as_str()? == "new").then(|| "n".to_string())
+    if m.len() == 1 && m.get("tbp")?.as_str()? == "new" { return Some("n".into()); }
+    (m.len() == 2 && m.get("tbp")?.as_str()? == "x" && m.get("nested")?.get("a")?.as_array()?.len() == 2).then(|| "x".to_string())
 }
 fn is_new_sbom(b: &[u8]) -> Option<String> {
+    if b.is_empty() { return Some("e".into()); }
+    if let Some(k) = b.strip_prefix(&[0xff, 0x00]) { return std::str::from_utf8(k).ok()?.parse::<u32>().ok().map(|k| format!("x{k}")); }
     let s = std::str::from_utf8(b).ok()?;
     let k: u32 = s.strip_prefix("{\"tbp-sbom\":")?.strip_suffix('}')?.parse().ok()?;
     Some(format!("n{k}"))
@@ -135,12 +151,26 @@ fn run_case(f: &[String]) -> String {
 const DESCS: &[&str] = &["api:0.10:ok", "api:0.9:ok", "api:0.11:ok", "api:1.10:ok", "api:0.1:ok", "api:10.0:ok", "api:0.10:bad", "api:0.9:bad", "malformed", "missingapi", "nofile", "unreadable", "nottoml"];
 const DESC_CLASSES: &[&str] = &["api:0.10:ok", "api:0.9:ok", "api:0.10:bad", "malformed", "missingapi", "nofile", "unreadable", "nottoml"];
 const EXES: &[&str] = &["detect", "build", "other"];
-const DBEHS: &[&str] = &["pass", "passplan", "fail", "err"];
+const DBEHS: &[&str] = &["pass", "passplan", "passeplan", "passxplan", "fail", "err"];
 
+const LAUNCHES: [&str; 3] = ["launch", "elaunch", "xlaunch"];
+const STORES: [&str; 3] = ["store", "estore", "xstore"];
+/// 16 subsets of {launch, store, build SBOMs, launch SBOMs}; the payload variant (normal / empty / other) rotates with the subset
 fn subsets16() -> Vec<String> {
-    (0..16).map(|m| { let mut it: Vec<&str> = vec![]; if m & 1 != 0 { it.push("launch"); } if m & 2 != 0 { it.push("store"); } if m & 4 != 0 { it.push("b.cdx"); it.push("b.spdx"); } if m & 8 != 0 { it.push("l.spdx"); it.push("l.syft"); } format!("ok:{}", it.join(",")) }).collect()
+    (0..16usize).map(|m| { let mut it: Vec<&str> = vec![]; if m & 1 != 0 { it.push(LAUNCHES[(m / 2) % 3]); } if m & 2 != 0 { it.push(STORES[(m / 4) % 3]); } if m & 4 != 0 { it.push("b.cdx"); it.push(if m & 1 != 0 { "be.spdx" } else { "bx.spdx" }); } if m & 8 != 0 { it.push(if m & 2 != 0 { "le.spdx" } else { "l.spdx" }); it.push("lx.syft"); } format!("ok:{}", it.join(",")) }).collect()
 }
 fn bbehs18() -> Vec<String> { let mut v = subsets16(); v.push("err".into()); v.push("layererr".into()); v }
+/// every payload variant of launch (absent + 3) x store (absent + 3) x build SBOMs (absent / set) x launch SBOMs, + error, layer error
+fn bbehs66() -> Vec<String> {
+    let mut v = vec![];
+    for l in 0..4 { for st in 0..4 { for b in 0..2 { for ls in 0..2 {
+        let mut it: Vec<&str> = vec![];
+        if l > 0 { it.push(LAUNCHES[l - 1]); } if st > 0 { it.push(STORES[st - 1]); }
+        if b > 0 { it.push("b.cdx"); it.push("be.spdx"); } if ls > 0 { it.push("lx.spdx"); it.push("le.syft"); }
+        v.push(format!("ok:{}", it.join(",")));
+    } } } }
+    v.push("err".into()); v.push("layererr".into()); v
+}
 
 /// which gate (in the property's sense) is closed, for the evidence distribution
 fn gate_of(exe: &str, nargs: usize, desc: &str, vars: &str) -> &'static str {
@@ -157,7 +187,7 @@ fn mk(kind: &str, exe: &str, nargs: usize, desc: &str, vars: &str, ctx: &str, db
     let phase_err = ctx != "ok/ok/ok" && !(ctx == "ok/noenv/ok") || desc.ends_with(":bad") || pre.contains('d') || pre.contains("/m/");
     let beh = if exe == "detect" { dbeh.to_string() } else if exe == "build" { bbeh.split(':').next().unwrap().to_string() } else { "-".into() };
     Case { fields: [exe, &nargs.to_string(), desc, vars, ctx, dbeh, bbeh, pre, link].iter().map(|s| s.to_string()).collect(),
-        tags: vec![("kind".into(), kind.into()), ("exe".into(), exe.split(':').next().unwrap().into()), ("gate".into(), g.into()), ("beh".into(), beh), ("errsrc".into(), u8::from(phase_err).to_string()), ("link".into(), link.into())],
+        tags: vec![("kind".into(), kind.into()), ("exe".into(), exe.split(':').next().unwrap().into()), ("gate".into(), g.into()), ("beh".into(), beh), ("errsrc".into(), u8::from(phase_err).to_string()), ("link".into(), link.into()), ("emptypayload".into(), u8::from((exe == "detect" && dbeh == "passeplan") || (exe == "build" && ["elaunch", "estore", "be.", "le."].iter().any(|x| bbeh.contains(x)))).to_string())],
         nontrivial: g == "open" }
 }
 
@@ -181,7 +211,7 @@ fn generate(tier: &str, seed: u64, emit: &mut dyn FnMut(Case)) {
     } } } }
     // A3. context-assembly inputs (cwd, platform dir, buildpack plan) x variables, everything else open
     for exe in EXES { for cwd in ["ok", "gone"] { for plat in ["ok", "noenv", "bad"] { for planin in ["ok", "missing", "malformed"] { for vars in &var_sets {
-        emit(mk("ctx", exe, right_args(exe), "api:0.10:ok", vars, &format!("{cwd}/{plat}/{planin}"), "passplan", rep_b, "f/f/v/fff/fff", "sym"));
+        emit(mk("ctx", exe, right_args(exe), "api:0.10:ok", vars, &format!("{cwd}/{plat}/{planin}"), "passeplan", "ok:elaunch,estore,be.cdx,le.syft", "f/f/v/fff/fff", "sym"));
     } } } } }
     // A4. executable reached through a copy instead of a symlink
     for exe in EXES { for desc in ["api:0.10:ok", "api:0.9:ok", "nofile"] { for nargs in [2, 3] {
@@ -191,24 +221,25 @@ fn generate(tier: &str, seed: u64, emit: &mut dyn FnMut(Case)) {
     for dbeh in DBEHS { for pp in ["a", "f", "d"] { for vars in ["111111", "111011"] { for plat in ["ok", "noenv", "bad"] { for descr in ["api:0.10:ok", "api:0.10:bad"] {
         emit(mk("detect", "detect", 2, descr, vars, &format!("ok/{plat}/ok"), dbeh, "err", &format!("{pp}/a/a/aaa/aaa"), "sym"));
     } } } } }
-    // B2. all gates open: build behaviours (16 subsets, error, layer error) x pre-existing outputs
+    // B2. all gates open: build behaviours (launch and store each absent / normal / empty / other-shape, SBOM sets with
+    //     normal, empty and binary data, error, layer error) x pre-existing outputs
     let sb_pre: Vec<&str> = if thorough { vec!["aaa", "aaf", "afa", "aff", "faa", "faf", "ffa", "fff"] } else { vec!["aaa", "fff"] };
-    for bbeh in bbehs18() { for lp in ["a", "f", "d"] { for sp in ["a", "v", "m", "d"] { for bp in &sb_pre { for lp3 in &sb_pre {
+    for bbeh in bbehs66() { for lp in ["a", "f", "d"] { for sp in ["a", "v", "m", "d"] { for bp in &sb_pre { for lp3 in &sb_pre {
         emit(mk("build", "build", 3, "api:0.10:ok", "111111", "ok/ok/ok", "pass", &bbeh, &format!("a/{lp}/{sp}/{bp}/{lp3}"), "sym"));
     } } } } }
     // B3. every set of SBOM formats on both sides x pre-existing files (incl. blocked paths)
     for bm in 0..8u32 { for lm in 0..8u32 { for pre in ["a/a/a/aaa/aaa", "f/f/v/fff/fff", "a/f/a/afd/dfa", "a/a/v/daf/fda"] {
-        let mut it = vec!["launch".to_string(), "store".to_string()];
-        for (k, fm) in FMTS.iter().enumerate() { if bm >> k & 1 == 1 { it.push(format!("b.{fm}")); } }
-        for (k, fm) in FMTS.iter().enumerate() { if lm >> k & 1 == 1 { it.push(format!("l.{fm}")); } }
+        let mut it = vec![LAUNCHES[(bm % 3) as usize].to_string(), STORES[(lm % 3) as usize].to_string()];
+        for (k, fm) in FMTS.iter().enumerate() { if bm >> k & 1 == 1 { it.push(format!("{}.{fm}", ["b", "be", "bx"][(k + bm as usize + lm as usize) % 3])); } }
+        for (k, fm) in FMTS.iter().enumerate() { if lm >> k & 1 == 1 { it.push(format!("{}.{fm}", ["l", "le", "lx"][(k + bm as usize + 2 * lm as usize) % 3])); } }
         emit(mk("sbomsets", "build", 3, "api:0.10:ok", "111111", "ok/ok/ok", "pass", &format!("ok:{}", it.join(",")), pre, "sym"));
     } } }
     // B4. random result item lists (duplicates, any order) against random pre-existing states
-    let items = ["launch", "store", "b.cdx", "b.spdx", "b.syft", "l.cdx", "l.spdx", "l.syft"];
+    let items = ["launch", "elaunch", "xlaunch", "store", "estore", "xstore", "b.cdx", "b.spdx", "b.syft", "be.cdx", "be.spdx", "bx.syft", "bx.cdx", "l.cdx", "l.spdx", "l.syft", "le.cdx", "le.syft", "lx.spdx", "lx.cdx"];
     let n_b4 = if thorough { 6000 } else { 600 };
     for idx in 0..n_b4 {
         let mut r = Rng::for_case(seed, idx);
-        let n = r.below(7) as usize;
+        let n = r.below(9) as usize;
         let it: Vec<&str> = (0..n).map(|_| *r.pick(&items)).collect();
         let pc = |r: &mut Rng| *r.pick(&['a', 'a', 'f', 'f', 'd']);
         let three = |r: &mut Rng| (0..3).map(|_| pc(r)).collect::<String>();
